@@ -32,10 +32,11 @@ from harness.core import Case, ImplResult, fbits, from_fbits
 
 PID = 'C02'
 LEAN_MODULES = ['ThermoVerif.Props.C02']
-RULE = ('60 % single-mix cases, 40 % histories (3–6 further operations on ONE receiver: mix again with the receiver among the '
-        'inlets, assign H / h / S, separate a share — each step judged by the oracles); flags vle=True 14 %, energy_balance=False 14 %; '
+RULE = ('51 % single-mix cases, 30 % histories (3–6 further operations on ONE receiver: mix again with the receiver among the '
+        'inlets, assign H / h / S, separate a share — each step judged by the oracles), 13 % shared-state histories, 6 % Peng-Robinson '
+        'histories; flags vle=True 14 %, energy_balance=False 14 %; '
         'MultiStream receivers / inlets over gl, ls, gs, gls, lL, glL and single-phase L streams (conserve_phases 50 % when one is present); '
-        '11 % shared-state histories (a MultiStream separated from its own phase view; a stream and its proxy taken there and back; a stream and its copy / flow proxy / copy_like twin going separate ways; two properties read, a composition-only edit, one re-read, the other used); 6 % gas-phase histories in a Peng-Robinson (equation-of-state) property package; 7 % of cases with trace flows (1e-9..1e-8 kmol/hr in all, non-empty); cases of 1–5 inlets (single-phase l/g streams, two-phase MultiStreams, empty streams, Heat/Power objects, None), '
+        'shared-state histories, evidence tags shared:* (a MultiStream separated from its own phase view; a MultiStream whose material moves between its phases at constant T, P and overall composition between two reads; a stream and its proxy taken there and back; a stream and its copy / flow proxy / copy_like twin going separate ways; two properties read, a composition-only edit, one re-read, the other used); gas-phase histories in a Peng-Robinson (equation-of-state) property package; 7 % of cases with trace flows (1e-9..1e-8 kmol/hr in all, non-empty); cases of 1–5 inlets (single-phase l/g streams, two-phase MultiStreams, empty streams, Heat/Power objects, None), '
         'T 250–500 K, P 1e4–1e7 Pa (log-uniform), 5 chemicals with random flows; receiver fresh / multi-phase / one of the inlets; '
         'Q = ΔT·ΣC with ΔT ∈ ±40 K, 0, or huge (fallback branches); conserve_phases 10 %; then separate_out of a sub-stream '
         '(equal shares of {exactly the parent\'s T, another T} x {same phase, opposite phase}; 15 % at another pressure) and '
@@ -405,20 +406,24 @@ def run_ops(ops):
         elif op == 'proxy':
             a = objs[int(t[1])]
             objs.append(a.proxy() if is_stream(a) else None)          # a second handle on the same flows and T, P
+            tags.add('shared:proxy')
         elif op == 'copy':
             a = objs[int(t[1])]
             objs.append(a.copy() if is_stream(a) else None)           # an independent stream in the same state
+            tags.add('shared:copy')
         elif op == 'flowproxy':
             a = objs[int(t[1])]
             objs.append(a.flow_proxy() if is_stream(a) else None)     # shares the flows, has its own T and P
+            tags.add('shared:flow_proxy')
         elif op == 'copylike':
             b, a = objs[int(t[1])], objs[int(t[2])]
             if is_stream(a) and is_stream(b):
-                try: b.copy_like(a)
+                try: b.copy_like(a); tags.add('shared:copy_like')
                 except Exception: tags.add('copylike-raised')
         elif op == 'view':
             a = objs[int(t[1])]
             objs.append(a[t[2]] if is_multi(a) and t[2] in a.phases else None)      # the phase view parent['g'] / parent['l']
+            tags.add('shared:phase-view')
         elif op == 'T':
             a = objs[int(t[1])]
             if is_stream(a): a.T = float(t[2])
@@ -431,7 +436,24 @@ def run_ops(ops):
                     a.imol[ph, CHEM_IDS(a)[int(t[2])]] = float(t[3])
                 else:
                     a.imol.data[int(t[2])] = float(t[3])
-                tags.add('edit:composition-only')
+                tags.add('shared:composition-only')
+        elif op == 'move':
+            # `move a i amount from to`: `amount` kmol/hr of chemical i goes from one phase of a MultiStream to another —
+            # a phase-split-only edit: T, P and the overall composition stay bit-identical
+            a = objs[int(t[1])]
+            if is_multi(a) and t[4] in a.phases and t[5] in a.phases:
+                ID = CHEM_IDS(a)[int(t[2])]
+                amt = min(float(t[3]), float(a.imol[t[4], ID]))
+                a.imol[t[4], ID] = float(a.imol[t[4], ID]) - amt
+                a.imol[t[5], ID] = float(a.imol[t[5], ID]) + amt
+                tags.add('shared:phase-split-only')
+        elif op == 'vleV':
+            # `vleV a V`: a flash at the stream's pressure to the vapour fraction V (for a pure chemical a second such
+            # flash changes nothing but the phase split)
+            a = objs[int(t[1])]
+            if is_multi(a):
+                try: a.vle(V=float(t[2]), P=a.P); tags.add('shared:phase-split-by-flash')
+                except Exception: tags.add('vleV-raised')
         elif op == 'rd':
             a = objs[int(t[1])]
             if is_stream(a): read(a, t[2] if len(t) > 2 else 'H')       # a read that fills the property memo
@@ -991,6 +1013,44 @@ def gen_alias_history(rng):
     one handle and read through the other, come back to exactly T1, then use the stream as an inlet / in a separation"""
     ops = []
     r0 = rng.random()
+    if r0 < 0.18:
+        # (e) the property memo of a MultiStream across a phase-split-only edit: H or S is read, material moves between
+        # the phases at constant T, P and overall composition, then H / S is used again (inlet, separation, X = X).
+        # Flows are multiples of 1/4 with a total of 64 so that every number involved is exact in binary.
+        other = gen_stream(rng, ops, empty=False)
+        recv = add_obj(ops, f'S {rng.choice("lg")} 298.15 101325.0 {gen_flows(rng, True)}')
+        X = rng.choice(['H', 'H', 'S'])
+        if rng.random() < 0.7:
+            i, j = rng.sample(range(len(CHEMS)), 2)
+            q = [rng.randrange(1, 60) / 4 for _ in range(3)]
+            last = 64 - sum(q)
+            g = ['0'] * len(CHEMS); l = ['0'] * len(CHEMS)
+            g[i], g[j], l[i], l[j] = repr(q[0]), repr(q[1]), repr(q[2]), repr(last)
+            a = add_obj(ops, f'M {gen_T(rng)} {gen_P(rng)} {",".join(g)}|{",".join(l)}')
+            ops.append(f'rd {a} {X}')
+            for _ in range(rng.choice([1, 1, 2])):
+                frm, to = rng.choice([('g', 'l'), ('l', 'g')])
+                ops.append(f'move {a} {rng.choice([i, j])} {rng.randrange(1, 40) / 4!r} {frm} {to}')
+                if rng.random() < 0.3: ops.append(f'rd {a} {rng.choice(["H", "S", "C"])}')
+        else:
+            k = rng.randrange(len(CHEMS) - 1) if rng.random() < 0.8 else 0          # a pure chemical (not glycerol/propane-only oddities)
+            fl = ['0'] * len(CHEMS); fl[k] = '16.0'
+            a = add_obj(ops, f'M 350.0 101325.0 {",".join(["0"] * len(CHEMS))}|{",".join(fl)}')
+            ops.append(f'vleV {a} {rng.choice([0.25, 0.5])}')
+            ops.append(f'rd {a} {X}')
+            ops.append(f'vleV {a} {rng.choice([0.75, 0.125])}')
+        r = rng.random()
+        if r < 0.3: ops.append(f'set {a} {X} cur 0')
+        elif r < 0.75:
+            mode, q_ = gen_Q(rng, sane=True)
+            ops.append(f'mix {recv} {a},{other} {mode} {q_} 0')
+        elif r < 0.9: add_obj(ops, f'sum {a},{other}')
+        else:
+            fr = ','.join(r6(rng.uniform(0, 0.6)) for _ in CHEMS)
+            b = add_obj(ops, f'sub {a} {fr} {r6(rng.uniform(-20, 20))} same 1.0')
+            ops.append(f'sep {a} {b}')
+        return Case(ops, {'history': True})
+    r0 = rng.random()
     if r0 < 0.34:
         # (c) the property memo across a composition-only edit: two different properties are read, one flow is changed
         # in place (phase, T, P untouched), one of the two is read again, then the OTHER one is used — as an inlet of a mix,
@@ -1269,7 +1329,7 @@ def generate(rng, tier, index, nworkers):
     n = max(1, budget(tier)['cases'] // nworkers)
     for _ in range(n):
         r = rng.random()
-        yield gen_pr_history(rng) if r < 0.06 else gen_alias_history(rng) if r < 0.17 else gen_history(rng) if r < 0.47 else gen_case(rng)
+        yield gen_pr_history(rng) if r < 0.06 else gen_alias_history(rng) if r < 0.19 else gen_history(rng) if r < 0.49 else gen_case(rng)
 
 
 def corpus():
